@@ -27,16 +27,18 @@ n = len(metas)
 missed = [m["id"] for m in metas if not m["reported_by"]]
 text = """## 11. Seeded changes and which checks catch them
 
-%d changes were produced by 80 fresh sub-agents in four rounds of 20 (one agent per property and round). Round 1: three
+%d changes were produced by 100 fresh sub-agents in five rounds of 20 (one agent per property and round). Round 1: three
 changes each, free choice. Round 2: two each, defects in the logic *around* the arithmetic - guards, dispatch, special
 cases, canonical form, configuration - rather than slips inside digit loops. Round 3: two each, changes that look like
 maintenance work - fast paths, refactors, rerouted API forms, type or cfg changes, std helpers with different edge
 behaviour. Round 4: two each, contract drift - one side of two things that are supposed to agree (sibling API forms, trait
-laws, wrapper vs implementation, documented return and panic conventions). Each agent got only the property text and a
+laws, wrapper vs implementation, documented return and panic conventions). Round 5: two each, optimisations gone wrong -
+fast paths, early exits, skipped work, in-place buffer reuse, cheaper special-case routines, normalisation or guards dropped
+because "the caller already did" (the style the earlier misses had in common). Each agent got only the property text and a
 private worktree; every change compiles, passes the 165 baseline tests and comes with a demonstration that fails with the
 change and passes without. Each was re-confirmed here in a scratch copy (`nbsa/confirm_seed.sh`: demo on the clean tree,
 patch, demo again - also `--release` when the demo asks for it - then the whole suite) before being kept under
-`/verif/seeded/<Cxx-k>/` (k = 1..3 round 1, 4..5 round 2, 6..7 round 3, 8..9 round 4) with `patch.diff`, `demo.rs`,
+`/verif/seeded/<Cxx-k>/` (k = 1..3 round 1, 4..5 round 2, 6..7 round 3, 8..9 round 4, 10..11 round 5) with `patch.diff`, `demo.rs`,
 `notes.md`, `meta.json`. `nbsa/seedrun.sh <patch>` applies a change to a scratch copy and runs every claimed check;
 `meta.json.reported_by` is its output on the final machinery. Independent agents sometimes hit on the same edit (the
 `powsign` simplification, `BigInt::set_bit` without `normalize()`, `RandomBits` bypassing `gen_bigint`, `monty_modpow`'s
@@ -49,10 +51,14 @@ padding, by-value `div_rem`'s guard order each occur two or three times); they a
 **%d of %d** are reported by a check of the property they were written for, %d more only by a sibling property's check, %d by
 none (%s). The misses are digit-, bit- or float-level arithmetic inside leaf routines (section 8): a lost carry in
 `montgomery`, a carry into the longer operand's tail, the Knuth D refinement, Toom-3 interpolation and operand splitting, a
-mask in `set_negative_bit` and result lengths in the two's-complement helpers, the sticky bit of `to_f64`, std-only guess
-constants (and a `bits <= MAX_EXP` guard standing in for `is_finite()`: reported as undecided, not as a violation), chunk
-sizing in `to_radix_digits_le`, a power-of-two shortcut in `gcd` / `nth_root`, a Euclid pre-reduction in `gcd`, a debug-only
-overflow in a signed remainder.
+mask in `set_negative_bit` and result lengths in the two's-complement helpers, chunk sizing in `to_radix_digits_le`, a
+power-of-two shortcut in `gcd` / `nth_root`, a debug-only overflow in a signed remainder; from round 5: a row window in
+`mac3`'s schoolbook leaf, a truncate-and-mask reduction for power-of-two moduli, a branch-free digit classifier that accepts
+two more characters, a skipped pass in `bitand_neg_neg`, a vacuous same-width round-trip test in `TryFrom`, a new `nth`
+override of `U32Digits`, a u128 addition split into two steps, a `bits() >> 5` length in Serialize (the serde length rule
+evaluates the announced length of the shape it knows; this one is reported as undecided). Five more (C07-6, C10-6, C07-11,
+C13-2, C13-11) are bodies the abstract interpreter cannot decide; they were reported while "undecided" made a check fail and
+are notes since section 12.4.
 
 Checks added or generalised because a seed was missed at first: R3c panic-site table and checked negations (C14-2, C14-3,
 C01-5), R5 constructors (C09-3), BigUint^BigUint decision + oracle-side case split (C10-3, C12-2), R5 range terms (C18-1),
@@ -64,7 +70,12 @@ C08-5), general R8 + who-may-call + shorter-first (C20-1, C20-3, C02-4), R4-raw-
 R2-count-narrowed (C05-2, later C08-9), R3c-operand-overflow (C12-7), inherent root/pow/modpow and checked_add/sub/mul
 targets (C11-7), R1 digits_mut seeds + denormalising helper summaries (C04-6, C07-7, C07-9), R11 montgomery operand lengths
 (C05-4, C05-6, C05-9), R1-constant-cut (C01-6), serde size-hint confinement (C17-6), extended_gcd_lcm Bezout oracle
-(C13-7), R2-conversion-intermediate (C08-8), R3 float-guess guard (C11-8), R7 serde declared length (C17-8).
+(C13-7), R2-conversion-intermediate (C08-8), R3 float-guess guard (C11-8), R7 serde declared length (C17-8); in the last
+round: the float-guess constants - bit-length guards and the `bits - K` of the scaled retry decided against MAX_EXP-1
+(C11-3, C16-1, C16-4, C16-8), the read set of the to_f64 digit loop (C08-1, C08-6), the non-zero typestate at gcd's common
+shift (C13-6, C13-10), checked arithmetic on a digit element (C10-1, C16-11), R1 under C10 and C18 (C10-10, C18-10), R11
+under C14 (C14-11), the panic-site table under the arithmetic families (C02-11), representation findings of the abstract
+interpreter kept under C04 (C04-11), trailing-zero counts compared only with 0 in the count-narrowing rule (C12-11).
 """ % (n, "\n".join(rows), own, n, sib, len(missed), ", ".join(missed))
 s = open(V + "/DESIGN.md").read()
 i0 = s.index("## 11. Seeded changes")
